@@ -270,7 +270,10 @@ MMovedIds(s0) ==
 MClassCp(cp) ==
   IF cp \in {4100, 4123, 4186} THEN "Ra"                    \* U+1004 NGA, U+101B RA, U+105A MON NGA
   ELSE IF (cp >= 4096 /\ cp <= 4128) \/ cp \in {4159, 4176, 4177, 4187, 4188, 4189, 4193, 4197, 4198}
-          \/ (cp >= 4206 /\ cp <= 4208) \/ (cp >= 4213 /\ cp <= 4225) \/ cp = 4238 THEN "C"
+          \/ (cp >= 4206 /\ cp <= 4208) \/ (cp >= 4213 /\ cp <= 4225) \/ cp = 4238
+          \/ (cp >= 43488 /\ cp <= 43492) \/ (cp >= 43495 /\ cp <= 43503) \/ (cp >= 43514 /\ cp <= 43518)   \* Extended-B letters
+          \/ (cp >= 43616 /\ cp <= 43631) \/ (cp >= 43633 /\ cp <= 43638) \/ cp \in {43642, 43646, 43647}    \* Extended-A letters
+       THEN "C"
   ELSE IF (cp >= 4129 /\ cp <= 4138) \/ (cp >= 4178 /\ cp <= 4181) THEN "IV"   \* U+1021..102A, 1052..1055
   ELSE IF cp \in {4145, 4228} THEN "VPre"                   \* U+1031, U+1084 SHAN E
   ELSE IF cp \in {4143, 4144, 4184, 4185} THEN "VBlw"       \* U+102F 1030 1058 1059
@@ -285,7 +288,7 @@ MClassCp(cp) ==
   ELSE IF cp = 4192 THEN "ML"
   ELSE IF cp = 65024 THEN "VS"
   ELSE IF cp \in {45, 160, 215, 8210, 8211, 8212, 8213, 8226, 9676, 9723, 9724, 9725, 9726}
-          \/ (cp >= 4160 /\ cp <= 4169) \/ (cp >= 4240 /\ cp <= 4249) \/ (cp >= 4170 /\ cp <= 4175) THEN "GB"
+          \/ (cp >= 4160 /\ cp <= 4169) \/ (cp >= 4240 /\ cp <= 4249) \/ (cp >= 43504 /\ cp <= 43513) \/ (cp >= 4170 /\ cp <= 4175) THEN "GB"
   ELSE IF cp = 8205 THEN "ZWJ" ELSE IF cp = 8204 THEN "ZWNJ"
   ELSE "O"     \* every other sign (VAbv VPst PT SM ...) and everything outside the grammar: no rule names it
 
